@@ -263,6 +263,10 @@ Proof.
         + apply Hrest; [exact Hnd'|]. intros i Hin. apply Hlt. right. exact Hin. }
     destruct r; cbn [fst]; apply Hgen.
     + unfold sub_after_ok, with_core. cbn [s_id]. destruct (visit_rest_now_sub_id (tab st) (nchg st) x) as [E _]. rewrite E. exact Hid.
+    + destruct (visit_rest_now_sub_id (tab st) (nchg st) x) as [E _].
+      destruct (report_is_sent (visit_rest (tab st) (nchg st) x)).
+      * unfold sub_after_ok, with_core. cbn [s_id]. rewrite E. exact Hid.
+      * unfold sub_after_skip, with_core. cbn [s_id]. rewrite E. exact Hid.
     + unfold sub_after_fail, with_core. cbn [s_id]. exact Hid.
     + exact Hid.
   - (* OReportBegin *)
@@ -411,7 +415,7 @@ Definition slot_witness : list op :=
 
 Definition ids_in_table (st : state) : list N := map s_id (subs st).
 
-Lemma slot_before_fix : ids_in_table (run_gen true false init slot_witness) = [1].
+Lemma slot_before_fix : ids_in_table (run_gen true false true init slot_witness) = [1].
 Proof. vm_compute. reflexivity. Qed.
 Lemma slot_after_fix : ids_in_table (run init slot_witness) = [2].
 Proof. vm_compute. reflexivity. Qed.
